@@ -20,6 +20,8 @@ func c09CfgFor(extendedKids bool) kit.WorldCfg {
 	cfg := c09Cfg
 	// a child store over things with an index of its own (nullable unique index over its child-only field)
 	cfg.Children = []kit.ChildCfg{{Name: "kids", Parent: "things", UniqueExtra: true, Extended: extendedKids}}
+	// a store in which no entity was ever created has no entities bucket (its indexes can be corrupted all the same)
+	cfg.LazyBuckets = true
 	return cfg
 }
 
